@@ -96,8 +96,14 @@ structure State where
   done    : Bool               -- `done`
   err     : Bool               -- an `assert` of the code would have fired (`available_time` infinite / busy machine)
 
-/-- `INIT_FINISH` -/
-def initFinish : Int := 9999
+/-- `INIT_FINISH` (extracted from `fjsp/__init__.py`) -/
+def initFinish : Int := Params.fjspInitFinish
+
+/-- `action.eq(NO_OP_ID)` after `td["action"].subtract_(1)`: the action means "wait" -/
+def isNoOp (a : Nat) : Bool := ((a : Int) - Params.fjspActionShift == Params.fjspNoOpId)
+
+/-- the shifted action `action - 1` as an index into the (job × machine) / job range -/
+def shifted (a : Nat) : Nat := ((a : Int) - Params.fjspActionShift).toNat
 
 /-- `_reset` -/
 def reset (i : Inst) : State :=
@@ -141,8 +147,8 @@ def translate (i : Inst) (s : State) (a' : Nat) : Nat × Nat × Nat :=
     let o := s.nextOp j
     (j, o, findMa i.M (fun m => s.proc m o))
   else
-    let j := a' / i.M
-    (j, s.nextOp j, a' % i.M)
+    let j := if Params.fjspJobIsDiv then a' / i.M else a' % i.M          -- `action // num_mas`
+    (j, s.nextOp j, if Params.fjspMachineIsMod then a' % i.M else a' / i.M)  -- `action % num_mas`
 
 /-- `_make_step` for the translated action (job `j`, its next operation `o`, machine `m`) -/
 def makeStepAt (s : State) (j o m : Nat) : State :=
@@ -170,7 +176,9 @@ def nextTime : Nat → (Nat → Int) → Int → Option Int
     if Params.fjspNextTimeCmp.eval (busy m) t then
       some (match r with
         | none => busy m
-        | some x => if x ≤ busy m then x else busy m)
+        | some x =>
+          if Params.fjspNextEventIsMin then (if x ≤ busy m then x else busy m)   -- `.min(1)`
+          else (if x ≤ busy m then busy m else x))
     else r
 
 /-- first half of `_transit_to_next_time` for a *selected* row: `time := available_time`
@@ -207,8 +215,8 @@ def fuel (i : Inst) : Nat := i.M + 1
 /-- `_step` as seen by a row that is stepped alone (batch size 1). -/
 def step (i : Inst) (s : State) (a : Nat) : State :=
   if s.done then s                                       -- neither `no_op` nor `req_op`
-  else if a = 0 then autoTransit i (fuel i) (transit i s)    -- wait
-  else autoTransit i (fuel i) (makeStep i s (a - 1))         -- scheduling action
+  else if isNoOp a then autoTransit i (fuel i) (transit i s)    -- wait
+  else autoTransit i (fuel i) (makeStep i s (shifted a))        -- scheduling action
 
 def env : Env Inst State where
   reset := reset
@@ -228,10 +236,23 @@ def maxOver : Nat → (Nat → Bool) → (Nat → Int) → Option Int
         | some x => if f n ≤ x then x else f n)
     else r
 
+/-- `min` counterpart of `maxOver` (only reachable if the extracted reduction of `_get_reward` is not `max`) -/
+def minOver : Nat → (Nat → Bool) → (Nat → Int) → Option Int
+  | 0, _, _ => none
+  | n + 1, keep, f =>
+    let r := minOver n keep f
+    if keep n then
+      some (match r with
+        | none => f n
+        | some x => if x ≤ f n then x else f n)
+    else r
+
 /-- `_get_reward`: `-finish_times.masked_fill(pad_mask, -inf).max(1)` (0 stands for the `+inf` the
-code would return on an instance without any real operation). -/
+code would return on an instance without any real operation); the reduction and the use of
+`pad_mask` are extracted from the source. -/
 def reward (i : Inst) (s : State) : Int :=
-  match maxOver i.N (fun o => !i.pad o) s.finish with
+  let keep : Nat → Bool := fun o => !(Params.fjspRewardMasksPadding && i.pad o)
+  match (if Params.fjspRewardIsMax then maxOver i.N keep s.finish else minOver i.N keep s.finish) with
   | some x => -x
   | none => 0
 
@@ -254,9 +275,9 @@ def autoTransitBatch : Nat → List Row → List Row
     else rows
 
 /-- `no_op = action.eq(NO_OP_ID) & ~dones` for a (row, action) pair -/
-def noOpSel (x : Row × Nat) : Bool := (x.2 == 0) && !x.1.2.done
+def noOpSel (x : Row × Nat) : Bool := isNoOp x.2 && !x.1.2.done
 /-- `req_op = ~no_op & ~dones` -/
-def reqSel (x : Row × Nat) : Bool := !(x.2 == 0) && !x.1.2.done
+def reqSel (x : Row × Nat) : Bool := !isNoOp x.2 && !x.1.2.done
 
 /-- batched `_step` on (row, action) pairs. -/
 def stepBatch (fuel : Nat) (ra : List (Row × Nat)) : List Row :=
@@ -267,7 +288,7 @@ def stepBatch (fuel : Nat) (ra : List (Row × Nat)) : List Row :=
       ra.map (fun x => ((x.1.1, release x.1.1 (if noOpSel x then advance x.1.1 x.1.2 else x.1.2)), x.2, reqSel x))
     else ra.map (fun x => (x.1, x.2, reqSel x))
   -- `td[req_op] = self._make_step(td.masked_select(req_op))`
-  let rows2 : List Row := ra1.map (fun x => if x.2.2 then (x.1.1, makeStep x.1.1 x.1.2 (x.2.1 - 1)) else x.1)
+  let rows2 : List Row := ra1.map (fun x => if x.2.2 then (x.1.1, makeStep x.1.1 x.1.2 (shifted x.2.1)) else x.1)
   -- `while step_complete.any(): …`
   autoTransitBatch fuel rows2
 
